@@ -15,19 +15,29 @@ ENGINE = "vtime-memstream"
 TECHNIQUE = (
     "runtime sequence-equality oracle on the real TCPLinesTransport / UnixLinesTransport / TCPUDSServerTransport.handle_client "
     "running on in-memory streams under a virtual clock: generated message sequences x enumerated split points / coalescing x "
-    "read timeouts at every prefix of a partially delivered line x EOF at and inside message boundaries"
+    "read timeouts at every prefix of a partially delivered line x EOF at and inside message boundaries; the same oracle per object with 2-3 line "
+    "transports alive in one event loop (each with its own stream, pace and read timeouts) and with successor objects created after a use ended; "
+    "per connection with several tester connections open at once / one after the other on one TCPUDSServerTransport / UnixUDSServerTransport object; "
+    "and on real unix/loopback sockets with the server transport started through its run() and the testers opened with connect()"
 )
 LEVEL_TEXT = (
     "Exploration with exhaustive sub-spaces: message sequences (lengths 1..4095, all byte values, bursts up to 200 messages) are "
     "pushed through the production read()/write() code and the production server loop; the byte stream is segmented at every single "
     "split point for short sequences, at seeded multi-splits, byte-by-byte and fully coalesced; read timeouts are placed at every "
     "prefix length of a partially delivered line; EOF is injected at every offset. Oracle: delivered sequence == sent sequence, one "
-    "message per read, a timed-out read consumes nothing, EOF never yields a message. Held = held on those runs."
+    "message per read, a timed-out read consumes nothing, EOF never yields a message. No object is only ever alone: groups of 2-3 transports "
+    "(tcp-lines and unix-lines mixed) read their own streams concurrently with short, repeated read timeouts, one use ends at a boundary, inside a line "
+    "or is given up with an incomplete line pending and a new transport object follows; 2-3 tester chains (connections at the same time and one after "
+    "the other) share one server transport object and every connection is compared with its own requests and replies; a sample of cases runs the "
+    "server transport through run() on a real unix / loopback socket with concurrent testers opened by connect(), lock-step requests at the boundary "
+    "lengths up to 4095 bytes and pipelined bursts. Held = held on those runs."
 )
-LEVEL_NOTE = "Trusted: asyncio.StreamReader (real) fed by the harness, MemWriter stand-in, virtual clock. A real-socket sample is part of C08."
+LEVEL_NOTE = ("Trusted: asyncio.StreamReader (real) fed by the harness, MemWriter stand-in, virtual clock; in the served family the kernel's sockets and the real "
+              "clock (a reply counts as missing after 10 real seconds).")
 RULE = (
     "cases = (transport kind, message sequence, segmentation plan, timeout placement, EOF placement); non-trivial = the stream was split "
-    "inside a line, coalesced several lines into one segment, timed out mid-line or ended mid-line; distinct = distinct case tuples"
+    "inside a line, coalesced several lines into one segment, timed out mid-line or ended mid-line; group cases = (kinds, per object: generations of "
+    "(messages, segmentation, pace, read timeout / start delay, ending)); served cases = (kind, per tester chain: scripts); distinct = distinct case tuples"
 )
 ASSUMPTIONS = ["messages have length >= 1 (an empty message is indistinguishable from EOF by construction of the line protocol)",
                "the peer encodes like gallia's own counterpart: lower-case hex digits + LF"]
@@ -44,7 +54,15 @@ def shards(tier: str, seed: int) -> list[dict[str, Any]]:
 def required_reach(tier: str) -> dict[str, int]:
     return {"client.reads": 2000, "client.writes": 500, "split.inside-line": 500, "coalesced": 100, "timeout.mid-line": 200, "timeout.empty-buffer": 20,
             "eof.boundary": 50, "eof.mid-line": 200, "server.requests": 1000, "server.eof.mid-line": 50, "kind.tcp-lines": 100, "kind.unix-lines": 100,
-            "long-message": 5, "burst": 5, "connect-path": 20, "server.eof-with-data": 50}
+            "long-message": 5, "burst": 5, "connect-path": 20, "server.eof-with-data": 50,
+            # several live objects of one kind in one event loop / successors after a first use ended
+            "companions.cases": 500, "companions.timeout-on-partial-line": 1000, "companions.successor": 300, "companions.successor-after-partial-line": 200,
+            "companions.abandoned-on-partial-line": 200, "companions.mixed-kinds": 50,
+            "server.multi.connections-while-shared": 200, "server.multi.requests-while-shared": 1000, "server.multi.successor": 100,
+            "server.multi.kind.tcp-lines": 50, "server.multi.kind.unix-lines": 50,
+            # started through run() on real sockets, testers opened with connect()
+            "served.cases": 40, "served.kind.tcp-lines": 15, "served.kind.unix-lines": 15, "served.concurrent-connections": 40, "served.long-request": 80,
+            "served.successor": 20}
 
 
 def gen_messages(rng: random.Random, short: bool) -> list[bytes]:
@@ -227,9 +245,354 @@ async def server_case(msgs: list[bytes], cuts: list[int], eof_at: int | None, eo
     return {"seen": seen, "out": bytes(writer.buffer), "early": early, "exc": exc}
 
 
+# ------------------------------------------------------------------------------------------------------------------------------
+# several live objects of the same kind in one event loop, and second uses (a successor after the first use ended)
+
+
+def reply_for(pdu: bytes) -> bytes | None:
+    """responder of the multi-connection families: the reply is a function of the request alone (same length, so 4095 stays 4095)"""
+    if pdu[0] & 1:
+        return None  # e.g. a suppressed positive response
+    return bytes([(pdu[0] + 0x40) & 0xFF]) + pdu[:0:-1]
+
+
+def gen_generation(rng: random.Random, ends: list[str], server: bool = False) -> dict[str, Any]:
+    """one use of one object: its own messages, its own segmentation, its own pace and the way it ends"""
+    msgs = gen_messages(rng, short=rng.random() < 0.5)
+    stream = encode(msgs)
+    ncuts = rng.choice([0, 1, 3, 8])
+    end = rng.choice(ends)
+    g = {"msgs": msgs, "cuts": sorted(rng.sample(range(1, len(stream)), min(len(stream) - 1, ncuts))), "gap": rng.choice([0, 0.004, 0.03]), "end": end,
+         "cut_at": rng.randrange(len(stream) + 1) if end != "eof" else None}
+    if server:
+        g["start"] = rng.choice([0, 0, 0.001, 0.02])
+    else:
+        g["rt"] = rng.choice([0.01, 0.05, 2.0])
+    return g
+
+
+def gen_stream(g: dict[str, Any]) -> bytes:
+    stream = encode(g["msgs"])
+    return stream if g["end"] == "eof" else stream[: g["cut_at"]]
+
+
+async def feed_counting(reader: asyncio.StreamReader, stream: bytes, cuts: list[int], gap: float, eof: bool, fed: list[int]) -> None:
+    pos = 0
+    for c in cuts + [len(stream)]:
+        if c > pos:
+            reader.feed_data(stream[pos:c])
+            pos = c
+            fed[0] = pos
+            await asyncio.sleep(gap)
+    if eof:
+        reader.feed_eof()
+
+
+async def client_slot(kind: str, gens: list[dict[str, Any]], log: list[dict[str, Any]]) -> None:
+    """one tester slot: a transport object per generation (the successor is created after its predecessor ended in EOF at a boundary, in EOF
+    inside a line, or was given up and closed while an incomplete line was pending); reads use short timeouts and are repeated"""
+    for g in gens:
+        reader = memstream.new_reader()
+        tr = make_transport(kind, reader, memstream.MemWriter())
+        stream = gen_stream(g)
+        fed = [0]
+        feeder = asyncio.ensure_future(feed_counting(reader, stream, [c for c in g["cuts"] if c < len(stream)], g["gap"], g["end"] != "abandon", fed))
+        got: list[Any] = []
+        consumed = timeouts = midline = idle = 0
+        while len(got) < len(g["msgs"]) + 3 and timeouts < 4000:
+            try:
+                m = await tr.read(timeout=g["rt"])
+            except TimeoutError:
+                timeouts += 1
+                pending = stream[consumed : fed[0]]
+                if pending and b"\n" not in pending:
+                    midline += 1
+                if feeder.done():
+                    idle += 1
+                    if idle >= 2:
+                        break  # nothing more will arrive (the peer went silent without closing): this use is given up
+                continue
+            except Exception as e:
+                got.append(("exc", type(e).__name__))
+                break
+            got.append(m)
+            if m == b"":
+                break
+            consumed += 2 * len(m) + 1
+        if not feeder.done():
+            feeder.cancel()
+        await asyncio.gather(feeder, return_exceptions=True)
+        close_exc = None
+        try:
+            await tr.close()
+        except Exception as e:
+            close_exc = type(e).__name__
+        log.append({"got": got, "timeouts": timeouts, "midline_timeouts": midline, "close_exc": close_exc, "pending_at_end": len(stream) - consumed})
+
+
+async def client_group_case(slots: list[dict[str, Any]]) -> list[list[dict[str, Any]]]:
+    logs: list[list[dict[str, Any]]] = [[] for _ in slots]
+    await asyncio.gather(*(client_slot(s["kind"], s["gens"], logs[i]) for i, s in enumerate(slots)))
+    return logs
+
+
+def make_responder(kind: str, uri: str, delays: list[Any]) -> Any:
+    """the production server transport with a deterministic responder; handle_client is the production loop, the wrapper only counts open
+    connections and closes the harness' end afterwards"""
+    from gallia.services.uds.server import TCPUDSServerTransport, UnixUDSServerTransport
+    from gallia.transports.base import TargetURI
+
+    base = TCPUDSServerTransport if kind == "tcp-lines" else UnixUDSServerTransport
+
+    class Responder(base):  # type: ignore[valid-type,misc]
+        def __init__(self) -> None:
+            super().__init__(None, TargetURI(uri))  # type: ignore[arg-type]
+            self.seen: dict[str, list[bytes]] = {}
+            self.open = 0
+            self.handled = 0
+            self.requests_while_shared = 0
+            self.connections_while_shared = 0
+            self.connections = 0
+
+        async def handle_request(self, request_pdu: bytes) -> tuple[bytes | None, float]:
+            t = asyncio.current_task()
+            self.seen.setdefault(t.get_name() if t is not None else "?", []).append(bytes(request_pdu))
+            if self.open > 1:
+                self.requests_while_shared += 1
+            d = delays[self.handled % len(delays)]
+            self.handled += 1
+            if d == "yield":
+                await asyncio.sleep(0)
+            elif d:
+                await asyncio.sleep(d)
+            return reply_for(bytes(request_pdu)), 0.0
+
+        async def handle_client(self, reader: Any, writer: Any) -> None:
+            self.connections += 1
+            if self.open > 0:
+                self.connections_while_shared += 1
+            self.open += 1
+            try:
+                await super().handle_client(reader, writer)
+            finally:
+                self.open -= 1
+                try:
+                    writer.close()
+                except Exception:
+                    pass
+
+    return Responder()
+
+
+async def server_chain(srv: Any, cid: int, gens: list[dict[str, Any]], log: list[dict[str, Any]]) -> None:
+    """connections of one tester, one after the other, on the shared server object (other chains run at the same time)"""
+    for gi, g in enumerate(gens):
+        if g["start"]:
+            await asyncio.sleep(g["start"])
+        reader = memstream.new_reader()
+        writer = memstream.MemWriter()
+        name = f"conn-{cid}.{gi}"
+        stream = gen_stream(g)
+        task = asyncio.ensure_future(srv.handle_client(reader, writer))
+        task.set_name(name)
+        await feed(reader, stream, [c for c in g["cuts"] if c < len(stream)], g["gap"], False)
+        for _ in range(10):
+            await asyncio.sleep(0)
+        early = task.done()
+        reader.feed_eof()
+        exc = None
+        try:
+            await asyncio.wait_for(task, 120)
+        except Exception as e:
+            exc = type(e).__name__
+        log.append({"seen": srv.seen.get(name, []), "out": bytes(writer.buffer), "early": early, "exc": exc})
+
+
+async def server_group_case(kind: str, chains: list[list[dict[str, Any]]], delays: list[Any]) -> dict[str, Any]:
+    srv = make_responder(kind, "tcp-lines://127.0.0.1:1" if kind == "tcp-lines" else "unix-lines:///x.sock", delays)
+    logs: list[list[dict[str, Any]]] = [[] for _ in chains]
+    await asyncio.gather(*(server_chain(srv, i, gens, logs[i]) for i, gens in enumerate(chains)))
+    return {"logs": logs, "requests_while_shared": srv.requests_while_shared, "connections_while_shared": srv.connections_while_shared}
+
+
+def gen_script(rng: random.Random, long: bool) -> list[tuple[str, Any]]:
+    """what one tester does on a served connection: lock-step exchanges (boundary lengths up to the maximum) and one pipelined burst of short
+    messages; the last request is always answered, so a connection that died is noticed"""
+    ops: list[tuple[str, Any]] = []
+    lens = rng.sample([1, 2, 255, 2047, 2048, 2049, 3000, 4094, 4095], 3) if long else [rng.randint(1, 40) for _ in range(3)]
+    for n in lens:
+        m = rng.randbytes(n)
+        ops.append(("one", bytes([m[0] & 0xFE]) + m[1:] if n > 2048 else m))
+    ops.append(("burst", [rng.randbytes(rng.randint(1, 12)) for _ in range(rng.randint(2, 25))]))
+    rng.shuffle(ops)
+    ops.append(("one", bytes([rng.randrange(0, 256, 2)]) + rng.randbytes(rng.randint(0, 5))))
+    return ops
+
+
+READ_WAIT = 10.0  # real seconds; only ever waited for when a reply is really missing
+
+
+async def served_client(tr: Any, script: list[tuple[str, Any]], log: dict[str, Any]) -> None:
+    for op, arg in script:
+        batch = [arg] if op == "one" else arg
+        try:
+            for m in batch:
+                await tr.write(m, timeout=READ_WAIT)
+        except Exception as e:
+            log["bad"] = {"request_len": len(batch[0]), "want": "write accepted", "got": ("exc", type(e).__name__), "op": op}
+            return
+        for m in batch:
+            want = reply_for(m)
+            if want is None:
+                continue
+            try:
+                got: Any = await tr.read(timeout=READ_WAIT)
+            except Exception as e:
+                got = ("exc", type(e).__name__)
+            log["exchanges"] += 1
+            if len(m) > 2048 and got == want:
+                log["long_ok"] += 1
+            if got != want:
+                log["bad"] = {"request_len": len(m), "request_head": m[:8], "want": want[:16], "got": got[:16] if isinstance(got, bytes) else got, "op": op}
+                return
+
+
+async def served_case(kind: str, uri: str, chains: list[list[list[tuple[str, Any]]]]) -> dict[str, Any]:
+    """the virtual ECU's transport is started the way `gallia vecu` starts it (run(): asyncio.start_server / start_unix_server on a real
+    socket); the testers are production transports opened with connect(); the first connection of every chain is open at the same time"""
+    from gallia.transports.tcp import TCPLinesTransport
+    from gallia.transports.unix import UnixLinesTransport
+
+    cls = TCPLinesTransport if kind == "tcp-lines" else UnixLinesTransport
+    srv = make_responder(kind, uri, [0, "yield", 0])
+    run_task = asyncio.ensure_future(srv.run())
+    opened: list[Any] = []
+
+    async def connect() -> Any:
+        for _ in range(600):
+            if run_task.done():
+                return None
+            try:
+                tr = await cls.connect(uri, timeout=READ_WAIT)
+                opened.append(tr)
+                return tr
+            except (ConnectionRefusedError, FileNotFoundError):
+                await asyncio.sleep(0.005)
+        return None
+
+    logs: list[list[dict[str, Any]]] = [[{"exchanges": 0, "long_ok": 0, "bad": None} for _ in chain] for chain in chains]
+    out: dict[str, Any] = {"logs": logs, "start_error": None, "connect_failed": False}
+
+    async def chain_run(ci: int, first: Any) -> None:
+        tr = first
+        for gi, script in enumerate(chains[ci]):
+            if gi > 0:
+                tr = await connect()
+                if tr is None:
+                    logs[ci][gi]["bad"] = {"request_len": 0, "want": "a connection", "got": "no connection to the running server"}
+                    return
+            await served_client(tr, script, logs[ci][gi])
+            try:
+                await tr.close()
+            except Exception:
+                pass
+            if logs[ci][gi]["bad"] is not None:
+                return
+
+    try:
+        for _ in range(5):
+            await asyncio.sleep(0)  # run() binds its socket before the first tester tries to connect
+        firsts = [await connect() for _ in chains]
+        if any(f is None for f in firsts) or run_task.done():
+            if run_task.done() and not run_task.cancelled() and run_task.exception() is not None:
+                e = run_task.exception()
+                out["start_error"] = {"type": type(e).__name__, "errno": getattr(e, "errno", None), "text": str(e)[:200]}
+            else:
+                out["connect_failed"] = True
+            return out
+        await asyncio.gather(*(chain_run(i, f) for i, f in enumerate(firsts)))
+        out["connections_while_shared"] = srv.connections_while_shared
+        return out
+    finally:
+        for tr in opened:
+            try:
+                await asyncio.wait_for(tr.close(), 2)
+            except BaseException:
+                pass
+        for _ in range(400):
+            if srv.open == 0:
+                break
+            await asyncio.sleep(0.005)
+        # py3.12.1: Server.wait_closed() waits for open connections; they are all closed by now, and the wait is bounded anyway
+        run_task.cancel()
+        try:
+            await asyncio.wait_for(asyncio.gather(run_task, return_exceptions=True), 2)
+        except BaseException:
+            pass
+
+
+def real_run(coro: Any, cpu_limit: float, wall_limit: float) -> Any:
+    """like vtime.run, but on an ordinary event loop (real sockets need the real selector and the real clock); same CPU guard"""
+    import signal
+    import threading
+
+    loop = asyncio.new_event_loop()
+    armed = threading.current_thread() is threading.main_thread()
+    old_handler = None
+    if armed:
+        def on_timer(signum: int, frame: Any) -> None:
+            raise vtime.Spinning()
+
+        old_handler = signal.signal(signal.SIGVTALRM, on_timer)
+        signal.setitimer(signal.ITIMER_VIRTUAL, cpu_limit)
+    try:
+        asyncio.set_event_loop(loop)
+        return loop.run_until_complete(asyncio.wait_for(coro, wall_limit))
+    finally:
+        if armed:
+            signal.setitimer(signal.ITIMER_VIRTUAL, 0)
+            signal.signal(signal.SIGVTALRM, old_handler if old_handler is not None else signal.SIG_DFL)
+        try:
+            for t in asyncio.all_tasks(loop):
+                t.cancel()
+            try:
+                loop.run_until_complete(asyncio.sleep(0))
+                loop.run_until_complete(loop.shutdown_asyncgens())
+            except BaseException:
+                pass
+        finally:
+            asyncio.set_event_loop(None)
+            loop.close()
+
+
+def free_port() -> int:
+    import socket
+
+    with socket.socket() as s:
+        s.bind(("127.0.0.1", 0))
+        return int(s.getsockname()[1])
+
+
+def small(spec: Any) -> bool:
+    """can the witness carry this spec completely (runner.jsonable shortens byte strings over 256 bytes)?"""
+    if isinstance(spec, (bytes, bytearray)):
+        return len(spec) <= 256
+    if isinstance(spec, dict):
+        return all(small(v) for v in spec.values())
+    if isinstance(spec, (list, tuple)):
+        return len(spec) <= 40 and all(small(v) for v in spec)
+    return True
+
+
+def summarise(gens: list[dict[str, Any]]) -> Any:
+    return [{**g, "msgs": f"{len(g['msgs'])} messages, lengths {[len(m) for m in g['msgs']][:12]}"} for g in gens]
+
+
 class Mon:
     def __init__(self, ctx: Any):
         self.ctx = ctx
+        self.served_off: set[str] = set()
+        self.served_n = 0
 
     def run(self, coro: Any, w: dict[str, Any], what: str) -> Any:
         try:
@@ -360,11 +723,192 @@ class Mon:
             ctx.violation("server-loop/replies-differ", "reply lines differ from one line per answered request, in order", {**w2, "out": out["out"][:120], "want": want[:120]})
 
 
+    # -- several live objects / second uses ---------------------------------------------------------------------------------------
+    def check_companions(self, slots: list[dict[str, Any]]) -> None:
+        """every transport object is judged on its own: what it delivered vs. what its own peer sent on its own stream"""
+        ctx = self.ctx
+        full = small(slots)
+        w = {"family": "client-group", "slots": slots if full else [{"kind": s["kind"], "gens": summarise(s["gens"])} for s in slots]}
+        ctx.case(("client-group", h(slots)), nontrivial=True)
+        ctx.reach("companions.cases")
+        if len({s["kind"] for s in slots}) > 1:
+            ctx.reach("companions.mixed-kinds")
+        logs = self.run(client_group_case(slots), w, "client/companions")
+        if logs is None:
+            return
+        for si, s in enumerate(slots):
+            for gi, g in enumerate(s["gens"]):
+                if gi >= len(logs[si]):
+                    break
+                out = logs[si][gi]
+                role = "first-use" if gi == 0 else "successor"
+                got = out["got"]
+                stream = gen_stream(g)
+                ctx.reach("client.reads", len(got) + out["timeouts"])
+                ctx.reach("companions.timeout-on-partial-line", out["midline_timeouts"])
+                if gi > 0:
+                    ctx.reach("companions.successor")
+                    prev = s["gens"][gi - 1]
+                    if prev["end"] != "eof" and not gen_stream(prev).endswith(b"\n") and gen_stream(prev):
+                        ctx.reach("companions.successor-after-partial-line")
+                complete = list(g["msgs"]) if g["end"] == "eof" else [unhexlify(l) for l in stream.split(b"\n")[:-1]]
+                midline = bool(stream) and not stream.endswith(b"\n")
+                delivered = [x for x in got if isinstance(x, bytes) and x != b""]
+                w2 = {**w, "slot": si, "generation": gi, "kind": s["kind"], "got": got[:12], "complete_messages": len(complete), "read_timeouts": out["timeouts"]}
+                if delivered[: len(complete)] != complete:
+                    how = "reordered-or-altered" if len(delivered) >= len(complete) else "lost"
+                    ctx.violation(f"client/companions/{how}/{role}", "with other line transports alive in the same event loop (or after an earlier one was closed), "
+                                  "the messages delivered by one transport's read() differ from the complete messages its own peer sent", w2)
+                    continue
+                if delivered[len(complete) :]:
+                    ctx.violation(f"client/companions/fabricated-message/{role}", "read() returned a message that the peer of this transport never sent completely", w2)
+                    continue
+                if g["end"] == "abandon":
+                    if midline:
+                        ctx.reach("companions.abandoned-on-partial-line")
+                    continue
+                if midline:
+                    ctx.reach("eof.mid-line")
+                else:
+                    ctx.reach("eof.boundary")
+                    if got[len(complete) :][:1] != [b""]:
+                        ctx.violation(f"client/companions/eof-not-signalled/{role}", "end of stream at a message boundary is not reported as the explicit EOF result", w2)
+
+    def check_server_group(self, kind: str, chains: list[list[dict[str, Any]]], delays: list[Any]) -> None:
+        """one server transport object, several tester connections at the same time and one after the other; every connection is judged on
+        its own: requests read from it, reply lines written to it"""
+        ctx = self.ctx
+        full = small(chains)
+        w = {"family": "server-group", "server_kind": kind, "delays": delays, "chains": chains if full else [summarise(c) for c in chains]}
+        ctx.case(("server-group", kind, h(chains), tuple(delays)), nontrivial=True)
+        ctx.reach(f"server.multi.kind.{kind}")
+        res = self.run(server_group_case(kind, chains, delays), w, "server-loop/multi")
+        if res is None:
+            return
+        ctx.reach("server.multi.requests-while-shared", res["requests_while_shared"])
+        ctx.reach("server.multi.connections-while-shared", res["connections_while_shared"])
+        expected: list[tuple[int, int, list[bytes], bytes]] = []
+        for ci, gens in enumerate(chains):
+            for gi, g in enumerate(gens):
+                stream = gen_stream(g)
+                complete = list(g["msgs"]) if g["end"] == "eof" else [unhexlify(l) for l in stream.split(b"\n")[:-1]]
+                expected.append((ci, gi, complete, b"".join(hexlify(r) + b"\n" for r in map(reply_for, complete) if r is not None)))
+        for ci, gi, complete, want in expected:
+            if gi >= len(res["logs"][ci]):
+                continue
+            out = res["logs"][ci][gi]
+            role = "first-connection" if gi == 0 else "later-connection"
+            if gi > 0:
+                ctx.reach("server.multi.successor")
+            ctx.reach("server.requests", len(out["seen"]))
+            stream = gen_stream(chains[ci][gi])
+            if stream and not stream.endswith(b"\n"):
+                ctx.reach("server.eof.mid-line")
+            w2 = {**w, "chain": ci, "generation": gi, "seen": out["seen"][:10], "complete": len(complete), "exc": out["exc"]}
+            if out["early"]:
+                ctx.violation(f"server-loop/multi/ends-before-eof/{role}", "the server loop of a connection ended although this client had not closed", w2)
+                continue
+            if out["seen"][: len(complete)] != complete:
+                ctx.violation(f"server-loop/multi/requests-differ/{role}", "requests handed to the ECU for a connection differ from the messages this client sent", w2)
+                continue
+            if len(out["seen"]) > len(complete):
+                ctx.violation(f"server-loop/multi/eof-mid-line-yields-request/{role}", "a partial line at end of stream was handled as a request", w2)
+                continue
+            if out["out"] != want:
+                mine = set(want.split(b"\n"))
+                others = set().union(*(set(x[3].split(b"\n")) for x in expected if (x[0], x[1]) != (ci, gi))) - mine
+                foreign = any(l in others for l in out["out"].split(b"\n"))
+                ctx.violation(f"server-loop/multi/replies-differ/{'foreign-reply' if foreign else 'missing-or-altered'}/{role}",
+                              "with several tester connections on one server transport, the reply lines written to a connection differ from one line per answered "
+                              "request of that connection, in order", {**w2, "out": out["out"][:120], "want": want[:120]})
+
+    def check_served(self, kind: str, chains: list[list[list[tuple[str, Any]]]]) -> None:
+        """real start-up path of the virtual ECU's transport + production connect() of the testers, real sockets, real clock"""
+        ctx = self.ctx
+        if kind in self.served_off:
+            return
+        w = {"family": "served", "kind": kind, "chains": [[[(op, len(a) if op == "one" else f"{len(a)} short messages") for op, a in script] for script in chain] for chain in chains]}
+        res = None
+        for attempt in range(4):
+            self.served_n += 1
+            uri = f"tcp-lines://127.0.0.1:{free_port()}" if kind == "tcp-lines" else f"unix-lines://{ctx.mkscratch()}/s{self.served_n}.sock"
+            try:
+                res = real_run(served_case(kind, uri, chains), cpu_limit=45.0, wall_limit=150.0)
+            except vtime.Spinning:
+                self.served_off.add(kind)
+                ctx.violation(f"served/{kind}/spins-without-yielding", "the exchange burns CPU without ever reaching a suspension point", w)
+                return
+            except TimeoutError:
+                self.served_off.add(kind)
+                ctx.violation(f"served/{kind}/does-not-end", "the exchange over the served socket did not end (no read timeout of the testers ended it)", w)
+                return
+            se = res["start_error"]
+            if se is not None and se["errno"] in (98, 48):  # EADDRINUSE: the probed port was taken by somebody else in the meantime
+                res = None
+                continue
+            break
+        if res is None or res["connect_failed"]:
+            ctx.reach("served.not-started")  # no verdict about the code
+            return
+        ctx.case(("served", kind, h(chains)), nontrivial=True)
+        if res["start_error"] is not None:
+            self.served_off.add(kind)
+            ctx.violation(f"served/{kind}/server-does-not-start", "the virtual ECU's line transport cannot be started on a free address", {**w, "error": res["start_error"]})
+            return
+        ctx.reach("served.cases")
+        ctx.reach(f"served.kind.{kind}")
+        ctx.reach("served.concurrent-connections", res.get("connections_while_shared", 0))
+        for ci, chain in enumerate(chains):
+            for gi in range(len(chain)):
+                out = res["logs"][ci][gi]
+                role = "first-connection" if gi == 0 else "later-connection"
+                ctx.reach("served.exchanges", out["exchanges"])
+                ctx.reach("served.long-request", out["long_ok"])
+                if gi > 0 and out["exchanges"]:
+                    ctx.reach("served.successor")
+                if out["bad"] is not None:
+                    self.served_off.add(kind)  # a missing reply costs real seconds: one witness per shard is enough
+                    ln = out["bad"]["request_len"]
+                    ctx.violation(f"served/{kind}/reply-wrong-or-missing/{'len>2048' if ln > 2048 else 'len<=2048'}/{role}",
+                                  "over a virtual ECU transport started through its run() and testers opened with connect(), a tester did not get exactly the reply to its "
+                                  "own request as the next message", {**w, "chain": ci, "generation": gi, **out["bad"]})
+                    break
+
+
+def h(spec: Any) -> str:
+    import hashlib
+
+    return hashlib.blake2b(repr(spec).encode(), digest_size=8).hexdigest()
+
+
+def run_groups(mon: Mon, rng: random.Random, i: int, kind: str) -> None:
+    """round 5 dimension: no object is alone in its event loop, and objects get successors"""
+    kinds = ("tcp-lines", "unix-lines")
+    slots = []
+    for s in range(rng.choice([2, 2, 3])):
+        gens = [gen_generation(rng, ["eof", "eof-mid", "abandon", "abandon"])]
+        if rng.random() < 0.6:
+            gens.append(gen_generation(rng, ["eof", "eof", "eof-mid"]))
+        slots.append({"kind": kind if s == 0 or rng.random() < 0.5 else rng.choice(kinds), "gens": gens})
+    mon.check_companions(slots)
+    if i % 2 == 0:
+        chains = []
+        for s in range(rng.choice([2, 2, 3])):
+            chains.append([gen_generation(rng, ["eof", "eof", "eof-mid"], server=True) for _ in range(rng.choice([1, 1, 2]))])
+        mon.check_server_group(kinds[(i // 2) % 2], chains, rng.choice([[0], ["yield"], [0.002], [0, "yield", 0.002, 0, 0.0005]]))
+    if i % 16 == 0:
+        chains3 = [[gen_script(rng, True)] + ([gen_script(rng, rng.random() < 0.5)] if rng.random() < 0.7 else []), [gen_script(rng, True)]]
+        if rng.random() < 0.3:
+            chains3.append([gen_script(rng, False)])
+        mon.check_served(kinds[(i // 16) % 2], chains3)
+
+
 def run(ctx: Any, params: dict[str, Any]) -> None:
     import gallia.command  # noqa: F401
 
     vtime.quiet_logging()
     rng = ctx.rng
+    rng5 = random.Random(f"C19-groups/{ctx.seed}/{ctx.shard_index}")  # own stream: the cases of the older families stay what they were
     mon = Mon(ctx)
     for i in range(params["n"]):
         kind = ("tcp-lines", "unix-lines")[i % 2]
@@ -399,6 +943,7 @@ def run(ctx: Any, params: dict[str, Any]) -> None:
             mon.check_connect_path(kind, [rng.randbytes(n) for n in rng.sample([1, 2, 255, 2047, 2048, 2049, 3000, 4094, 4095], 4)] + msgs[:3])
         mon.check_server(msgs, plans[1], rng.choice([None, None, rng.randrange(len(stream) + 1)]))
         mon.check_server(msgs, [], rng.choice([None, None, rng.randrange(len(stream) + 1)]), eof_with_data=True)
+        run_groups(mon, rng5, i, kind)
         if i % 20 == 0:
             ctx.sample({"kind": kind, "messages": [m for m in msgs[:4]], "cuts": plans[1][:8]})
         if ctx.out_of_time():
@@ -414,6 +959,30 @@ def replay(ctx: Any, witness: dict[str, Any]) -> None:
         return bytes.fromhex(x[4:]) if isinstance(x, str) and x.startswith("hex:") else x
 
     mon = Mon(ctx)
+    fam = witness.get("family")
+    if fam is not None:
+        def dec(x: Any) -> Any:
+            if isinstance(x, str) and x.startswith("hex:"):
+                if ".." in x:
+                    raise ValueError("shortened")
+                return bytes.fromhex(x[4:])
+            if isinstance(x, list):
+                return [dec(v) for v in x]
+            if isinstance(x, dict):
+                return {k: dec(v) for k, v in x.items()}
+            return x
+
+        try:
+            if fam == "client-group" and all(isinstance(g["msgs"], list) for sl in witness["slots"] for g in sl["gens"]):
+                mon.check_companions(dec(witness["slots"]))
+                return
+            if fam == "server-group" and all(isinstance(g["msgs"], list) for ch in witness["chains"] for g in ch):
+                mon.check_server_group(witness["server_kind"], dec(witness["chains"]), witness["delays"])
+                return
+        except ValueError:
+            pass
+        print("witness carries only a summary of the case (long messages / real-socket family); re-run the tier with the recorded seed")
+        return
     msgs = witness.get("messages")
     if not isinstance(msgs, list):
         print("witness carries only a summary of a long sequence; re-run the tier with the recorded seed")
